@@ -68,7 +68,7 @@ prop(
     "C20",
     level="proof",
     design_ref="DESIGN.md section 3, C20",
-    groups=[(["./pipeline"], r"^\(\*Pipeline\)\.(checkInputBytes|In|antispammerMaintenance)$"), (["./pipeline/antispam"], r"^(\(\*Antispammer\)\.(IsSpam|Maintenance)|\(\*antispamData\)\.Get)$"), (["./cfg/matchrule"], r"^\(\*Rule\)\.(Match|match|Prepare)$"),
+    groups=[(["./pipeline"], r"^\(\*Pipeline\)\.(checkInputBytes|In|Error|antispammerMaintenance)$"), (["./pipeline/antispam"], r"^(\(\*Antispammer\)\.(IsSpam|Maintenance)|\(\*antispamData\)\.Get)$"), (["./cfg/matchrule"], r"^\(\*(Rule|RuleSet)\)\.(Match|match|Prepare)$"),
             (["./fd"], r"^(scaleAntispamThreshold|extractAntispamRules|extractPipelineParams)$")],
     canaries=[("./pipeline", "replay/C20/zz_raw_last_byte_test.go", "TestVerifRawKeepsRecordBytes"),
               ("./fd", "replay/C20/zz_subsecond_interval_test.go", "TestVerifAntispamSubSecondInterval"),
@@ -384,8 +384,8 @@ prop(
     "C17",
     level="other",
     design_ref="DESIGN.md section 3, C17",
-    groups=[(["./plugin/action/mask"], r"^\(\*Mask\)\.(maskValue|maskSection)$"), (["./cfg"], r"^VerifyGroupNumbers$"), (["./cfg/matchrule"], r"^\(\*Rule\)\.(Match|match|Prepare)$"),
-            (["./plugin/action/mask", "./pipeline"], r"^(addFieldsToTree|\(\*Plugin\)\.(traverseTree|processMask|Do|gatherFieldMasksTree\$[12]))$")],
+    groups=[(["./plugin/action/mask"], r"^\(\*Mask\)\.(maskValue|maskSection)$"), (["./cfg"], r"^(VerifyGroupNumbers|isGroupsUnique)$"), (["./cfg/matchrule"], r"^\(\*(Rule|RuleSet)\)\.(Match|match|Prepare)$"),
+            (["./plugin/action/mask", "./pipeline"], r"^(addFieldsToTree|compileMasks?|\(\*Mask\)\.checkMatchRules|\(\*Plugin\)\.(Start|traverseTree|processMask|Do|gatherFieldPaths|gatherFieldMasksTree(\$[1-4])?))$")],
     canaries=[("./plugin/action/mask", "replay/C17/zz_replay_c17_test.go", "TestVerifReplayC17Tail"), ("./plugin/action/mask", "replay/C17/zz_cut_to_empty_test.go", "TestVerifCutToEmptyStaysCut"),
               ("./plugin/action/mask", "replay/C17/zz_replay_c17_test.go", "TestVerifReplayC17Order"), ("./plugin/action/mask", "replay/C17/zz_group_order_test.go", "TestVerifMaskGroupOrder")],
     claim=(
@@ -413,8 +413,8 @@ prop(
             (["./plugin/action/convert_utf8_bytes"], r"^\(\*Plugin\)\.convert$"),
             (["./plugin/action/hash/normalize"], r"^(hasPattern|\(\*tokenizer\)\.(nextToken|processOpenBracket|processCloseBracket|processQuotes)|\(\*tokenNormalizer\)\.normalizeByTokenizer)$"),
             (["./cfg/substitution"], r"^\(\*(CutFilter|TrimToFilter|RegexFilter)\)\.Apply$"),
-            (["./cfg/matchrule"], r"^\(\*Rule\)\.(Match|match|Prepare)$"),
-            (["./cfg"], r"^VerifyGroupNumbers$"),
+            (["./cfg/matchrule"], r"^\(\*(Rule|RuleSet)\)\.(Match|match|Prepare)$"),
+            (["./cfg"], r"^(VerifyGroupNumbers|isGroupsUnique)$"),
             (["./pipeline"], r"^\(\*processor\)\.(processEvent|doActions)$"),
             (["./metric"], r"truncateLabels$"),
             (["./plugin/action/decode", "./pipeline"], r"^\(\*Plugin\)\.(Do|decodeJson|checkError)$"),
